@@ -148,7 +148,9 @@ PROPS = {
     },
     "C02": {
         "thm_module": ["AkdModel.Thm.C02"],
-        "theorems": ["Akd.C02.lookup_complete", "Akd.C02.lookup_unpublished", "Akd.C02.rootHash_refines",
+        "theorems": ["Akd.C02.batch_lookup_complete", "Akd.C02.batch_lookup_unpublished", "Akd.C02.batchLookup_sound",
+                     "Akd.C02.batchLookup_complete", "Akd.C02.batchLookup_fails",
+                     "Akd.C02.lookup_complete", "Akd.C02.lookup_unpublished", "Akd.C02.rootHash_refines",
                      "Akd.C02.membershipProof_refines", "Akd.C02.nonMembershipProof_refines", "Akd.C02.noProperPrefix_of_256",
                      "Akd.C02.membershipProof_refines_counterexample",
                      "Akd.C05.membership_complete", "Akd.C05.membership_complete_leaf", "Akd.C05.nonmembership_complete"],
